@@ -60,7 +60,7 @@ pub fn run(tier: Tier) {
     std::panic::set_hook(Box::new(|_| {}));
     let mut st = Stats::new();
     let len = if tier == Tier::Quick { 5 } else { 7 };
-    let alphabet = ['a', 'é', '\n', ' ', '😀'];
+    let alphabet = ['a', 'é', '\n', ' ', '😀', '\r'];
     let texts = strings(&alphabet, len);
     let mut pairs = 0u64;
     for t in &texts {
